@@ -217,6 +217,15 @@ fn main() {
                 "o": (0..n).map(|k| (format!("k{:04}", k), serde_json::json!(k))).collect::<serde_json::Map<String, Value>>(),
                 "ss": (0..n).map(|k| format!("w{}", k % 7)).collect::<Vec<String>>(),
             });
+            // rounding-sensitive arithmetic over 64+ numbers (a reassociated or vectorised sum shows here)
+            let fl: Vec<f64> = (0..n).map(|k| [1e16, 1.0, -1e16, 1.0, 0.1, 1e308, -1e308, 3.0][(k + i as usize) % 8]).collect();
+            let fdoc = serde_json::json!({"fl": fl, "fl2": (0..n).map(|k| if k % 2 == 0 { 0.1 } else { 0.2 }).collect::<Vec<f64>>()});
+            for (fk, ft) in ["sum(fl)", "avg(fl)", "sum(fl2)", "avg(fl2)", "sum(fl[?@ < `1e300` && @ > `-1e300`])"].iter().enumerate() {
+                let fe = jmespath::compile(ft).unwrap();
+                let fv = var_of(&fdoc);
+                let _ = writeln!(out, "{}.fsum{}x{}.value	{}	{}", i, n, fk, ft, outcome(fe.search(fdoc.clone())));
+                let _ = writeln!(out, "{}.fsum{}x{}.variable_ref	{}	{}", i, n, fk, ft, outcome(fe.search(&fv)));
+            }
             let text = ["length(xs)", "length(s)", "length(o)", "length(keys(o))", "sort(xs)[0]", "reverse(s) | length(@)", "join('', ss) | length(@)", "xs[*] | length(@)", "max(xs)", "length(values(o))",
                         "sort_by(xs, &@)[-1]", "length(to_array(xs))", "sum(xs)", "length(ss[?@ == 'w1'])", "length(merge(o, o))"][rng.below(15)];
             let e = jmespath::compile(text).unwrap();
